@@ -6,7 +6,7 @@ import ast
 
 class Contract:
     def __init__(self, key, requires=(), ensures=(), yields=(), raises=None, raises_iff=(), loops=None,
-                 props=(), inherits=None, unfold=(), lemmas=(), note="", trusted=False, decreases=None):
+                 props=(), inherits=None, unfold=(), lemmas=(), note="", trusted=False, decreases=None, abstract=False, defines=()):
         self.key = key  # "module:Class.method"
         self.requires = list(requires)
         self.ensures = list(ensures)
@@ -21,6 +21,8 @@ class Contract:
         self.note = note
         self.trusted = trusted  # assumed, not verified (listed in trusted_base)
         self.decreases = decreases
+        self.defines = list(defines)  # naming clauses `result == f(args)`: assumed at call sites, not checked (see note)
+        self.abstract = abstract  # abstract method: no body; every override is verified against it
 
     def parsed(self, clause: str) -> ast.expr:
         return ast.parse(clause.strip(), mode="eval").body
